@@ -106,7 +106,7 @@ func (x *Exec) inline(st *State, fn *ssa.Function, args []Value, bindings []Valu
 		panic("unsupported:helper nesting too deep or recursive " + fn.String())
 	}
 	sub := &Exec{V: x.V, fn: fn, sigma: x.sigma, run: x.run, inst: x.inst, emitSafe: x.emitSafe, props: x.props, holes: x.holes, names: map[string]Value{},
-		assumeOK: x.assumeOK, assumeBeh: x.assumeBeh, onCall: x.onCall, rtMode: x.rtMode, inlineDepth: x.inlineDepth + 1, maxPaths: 2000, trackWrites: x.trackWrites}
+		assumeOK: x.assumeOK, assumeBeh: x.assumeBeh, onCall: x.onCall, rtMode: x.rtMode, inlineDepth: x.inlineDepth + 1, maxPaths: 2000, trackWrites: x.trackWrites, noAcqLimit: x.noAcqLimit}
 	if fn.TypeParams() != nil && fn.TypeParams().Len() > 0 {
 		panic("unsupported:generic helper without a contract " + fn.String())
 	}
